@@ -132,6 +132,7 @@ bool build_check(const std::string& prop, const std::string& tier, CheckSpec& s,
         s.rule = "two parts. (1) static ABI facts evaluated at run time in every replica (64- and 32-bit words, asm and portable): sizeof/alignof/offsetof of every struct in the C headers against the C++ type it is cast to, the prepared-point coefficient count, every exported constant against the C++ value (and a few against values written down in the simulator). (2) view refinement by simulation: every history of the other scenarios is executed once through the C API and once through the C++ API on the same replica with the same random stream; the event logs (all outputs, return values, stream consumption) must be identical. case = ABI row / constant per replica, plus the cases of the histories; non-trivial as in those scenarios";
         register_static_phases(prop, s);
         s.batches.push_back(mk("wkd", q ? 300 : 12000, FAST, "crossview", {}, "WKD-IBE histories, C view vs C++ view"));
+        s.batches.push_back(mk("wkd", q ? 200 : 8000, FAST, "crossview", {{"focus", 14}}, "adjustment-heavy histories (the wrappers with two list arguments), C view vs C++ view"));
         s.batches.push_back(mk("wkd", 80, {"A/bmi2-adx", "B/portable64"}, "crossview", {{"hopenum", 1}, {"stride", q ? 11 : 3}}, "every marshal/unmarshal/length wrapper: object kind x form x validating? x invalid element kinds, C view vs C++ view"));
         s.batches.push_back(mk("lq", 4, {"A/bmi2-adx", "B/portable64"}, "crossview", {{"hopenum", 1}}, "LQ-IBE marshal/unmarshal wrappers"));
         s.batches.push_back(mk("lq", q ? 200 : 8000, FAST, "crossview", {}, "LQ-IBE histories"));
